@@ -133,8 +133,8 @@ Section Eval.
                                     CS (match wq_mat q with Some true => "MATERIALIZED" | Some false => "NOT MATERIALIZED" | None => "" end);
                                     f (wq_query q);
                                     match wq_search q with
-                                    | Some s => CN "search" [CS (str_toks (ws_type s ++ " FIRST BY " ++
-                                                                          sjoin "," (map (fun e => toks_text (toks e)) (ws_by s))));
+                                    | Some s => CN "search" [CS (ws_type s ++ " FIRST BY " ++
+                                                                 sjoin " , " (map (fun e => toks_text (toks e)) (ws_by s)));
                                                             CS (str_toks (ws_set s))]
                                     | None => CN "search" []
                                     end]) l)
@@ -252,6 +252,12 @@ Section Eval.
     let has (f : exp -> bool) := existsb f subs in
     (if has (fun x => match x with EJunction [] _ => true | _ => false end) then ["Q-empty-junction"] else []) ++
     (if has (fun x => match x with EExprs [] => true | _ => false end) then ["Q-empty-operand-list"] else []) ++
+    (* Op with caller-supplied operator text that is not an operator symbol (keywords, "." ...) *)
+    (if has (fun x => match x with
+                      | EOp _ op (EType _) true => negb (String.eqb op "::")
+                      | EOp _ op _ _ => negb (str_in op sym_ops)
+                      | _ => false
+                      end) then ["Q-raw-operator-text"] else []) ++
     (if has (fun x => match x with
                       | EOp l _ r _ => is_nil l || is_nil r
                       | EUnary _ x' _ _ | EExists x' | ESubq _ x' | EBase x' => is_nil x'
@@ -292,7 +298,9 @@ Section Eval.
                (if nonempty al && negb (nonempty (fi_alias i)) && nonnil (fi_colaliases i)
                 then ["D6-function-alias-then-item-column-aliases"] else []) ++
                (if (nonempty al && nonempty (fi_alias i)) || (nonnil defs && nonnil (fi_colaliases i))
-                then ["D6-alias-on-function-and-on-item"] else [])
+                then ["D6-alias-on-function-and-on-item"] else []) ++
+               (if nonnil defs && negb (nonempty al) && nonempty (fi_alias i)
+                then ["D6-function-column-definitions-then-item-alias"] else [])
            | _ => []
            end) ++
           (if fi_lateral i && negb (lateral_src_ok src) then ["D6-lateral-before-relation"] else []) ++
@@ -362,7 +370,9 @@ Section Eval.
       let composed := show_cn (canon_stmt 12 e) in
       let cls := classes 12 e ++ global_classes e ++
                  (if str_contains "!join without a left item" composed then ["Q-join-without-left-item"] else []) ++
-                 (if str_contains "?empty" composed then ["Q-empty-expression"] else []) in
+                 (if str_contains "?empty" composed then ["Q-empty-expression"] else []) ++
+                 (* a part whose own text is not lexable (caller-supplied raw text) or does not render *)
+                 (if str_contains "<?>" composed || str_contains "<!>" composed then ["Q-unlexable-part"] else []) in
       match pg_lex true sql with
       | None => SReject composed cls
       | Some ts =>
